@@ -768,9 +768,13 @@ func (p *parser) parseInfixExpression() (*astNode, error) {
 		}
 		switch car.typ {
 		case ident:
-			err = buildTopOperators(car)
-			if err != nil {
-				return nil, err
+			// a prefix unary operator has no left operand,
+			// so pushing it never completes the operators below it
+			if p.getInfixOpInfo(car.val).childCount != 1 {
+				err = buildTopOperators(car)
+				if err != nil {
+					return nil, err
+				}
 			}
 			operatorStack = append(operatorStack, op{t: car, l: len(outputStack)})
 		case lParen:
